@@ -16,7 +16,16 @@ from . import core
 
 INF = 1 << 62
 GUARDED = 1 << 40        # size of the PROT_NONE region behind the buffer (harness/c10_driver.hpp)
-CONTAINER_OPS = ('fr', 'bk', 'pb', 'pop', 'cl', 'er', 'er1', 'ins', 'ins1', 'rs')
+CONTAINER_OPS = ('fr', 'bk', 'pb', 'pop', 'cl', 'er', 'er1', 'ins', 'ins1', 'rs', 'rv', 'af', 'an', 'as', 'ai', 'insr',
+                 'insi')
+# container operations that have a Lean model (Rt/Guards.lean): step kind -> model operation
+MODELLED_OPS = {'pb': 'dpb', 'pop': 'dpop', 'cl': 'dcl', 'af': '(da %d)', 'an': '(dan %d)', 'as': '(dan %d)',
+                'ai': '(dai %d)'}
+# steps that write to the buffer (the chains run in canary mode)
+WRITE_DATA_OPS = ('w', 'r', 'a', 'pb', 'pop', 'cl', 'er', 'er1', 'ins', 'ins1', 'rs', 'rv', 'af', 'an', 'as', 'ai',
+                  'insr', 'insi')
+CANARY_SLACK = 8192
+CANARY_FILL = 0xC3
 
 
 class Beyond(Exception):
@@ -218,12 +227,12 @@ def msg_sexp(m):
     return '(msg (hdr %d %d %d) %s)' % (m['hdrSize'], bl['off'], bl['size'], level_sexp(m['level']))
 
 
-def lean_request(bo, base, img, ns, m, chains, detail=False):
-    """chains: list of (needs_end, lean_ops string)"""
+def lean_request(bo, base, img, ns, m, chains, detail=False, canary=False):
+    """chains: list of (needs_end, lean_ops string); canary: the view is followed by CANARY_SLACK writable bytes"""
     ps = ' '.join('(p %d %s)' % (min(ne, INF), ops) for ne, ops in chains)
-    return 'guard (req (bo %s) (base %d) (img x%s) (ns %s) %s (paths %s)%s)' % (
+    return 'guard (req (bo %s) (base %d) (img x%s) (ns %s) %s (paths %s)%s%s)' % (
         'be' if bo == 'big' else 'le', base, ''.join('%02x' % b for b in img), ns, msg_sexp(m), ps,
-        ' (detail)' if detail else '')
+        ' (detail)' if detail else '', ' (canary %d %d)' % (CANARY_SLACK, CANARY_FILL) if canary else '')
 
 
 # ------------------------------------------------------------------ specification walker
@@ -248,6 +257,7 @@ class Chain:
         self.max_view = 0        # largest begin of any view the chain derives (also inside size computations)
         self.huge = False        # some computed position does not fit a pointer (64-bit header values)
         self.modelled = True     # False: judged against the specification only (container operations)
+        self.mutating = False    # the last accessor writes: the chain is also run in canary mode
 
     def view(self, p):
         if p > self.max_view:
@@ -410,7 +420,10 @@ class Spec:
             if k == 'a':
                 return 'a:%d' % st[1], ['(da %d)' % st[1]], None
             if k in CONTAINER_OPS:
-                return ':'.join([k] + [str(x) for x in st[1:]]), ['nomodel'], None
+                ops = ['nomodel']
+                if k in MODELLED_OPS:
+                    ops = [MODELLED_OPS[k] % st[1] if '%' in MODELLED_OPS[k] else MODELLED_OPS[k]]
+                return ':'.join([k] + [str(x) for x in st[1:]]), ops, None
         raise ValueError('step %r on %s' % (st, t))
 
     def first_dyn(self, pos):
@@ -521,8 +534,15 @@ class Spec:
             if k == 'r' or k == 'a':
                 ch.need(p + ls + st[1])
                 return None
+            if k in ('af', 'an', 'as', 'ai'):
+                # the new content replaces the old one: only the new size matters
+                ch.need(p + ls + st[1])
+                if st[1] > 256 ** ls - 1:
+                    ch.pre_ok = False
+                return None
             if k in CONTAINER_OPS:
-                ch.modelled = False
+                if k not in MODELLED_OPS:
+                    ch.modelled = False
                 n = self.rd(p, ls)
                 if p + ls + n >= GUARDED - (1 << 20):
                     ch.huge = True
@@ -539,7 +559,7 @@ class Spec:
                     ch.pre_ok = False
                 if k == 'er1' and not st[1] < n:
                     ch.pre_ok = False
-                if k == 'ins':
+                if k in ('ins', 'insr', 'insi'):
                     ch.need(p + ls + n + st[2])
                     if st[1] > n or n + st[2] > mx:
                         ch.pre_ok = False
@@ -547,7 +567,7 @@ class Spec:
                     ch.need(p + ls + n + 1)
                     if st[1] > n or n + 1 > mx:
                         ch.pre_ok = False
-                if k == 'rs':
+                if k in ('rs', 'rv'):
                     ch.need(p + ls + max(n, st[1]))
                 return None
             n = self.rd(p, ls)
@@ -570,6 +590,7 @@ class Spec:
             ch.lean += ops
             ch.kind = kind_name(pos, st)
             ch.view_begin = view_begin(pos)
+            ch.mutating = (st[0] == 'leaf' and st[2] in ('s', 'w', 'a')) or (pos[0] == 'data' and st[0] in WRITE_DATA_OPS)
             before = ch.needs_end
             self.cur = ch
             try:
@@ -787,7 +808,9 @@ def kind_name(pos, st):
         return '%s.field.%s' % (where, op)
     if k in CONTAINER_OPS:
         return 'data.' + {'fr': 'front', 'bk': 'back', 'pb': 'push_back', 'pop': 'pop_back', 'cl': 'clear',
-                          'er': 'erase_range', 'er1': 'erase', 'ins': 'insert_n', 'ins1': 'insert', 'rs': 'resize_value'}[k]
+                          'er': 'erase_range', 'er1': 'erase', 'ins': 'insert_n', 'ins1': 'insert', 'rs': 'resize_value',
+                          'rv': 'resize_fill', 'af': 'assign_iter', 'an': 'assign_n', 'as': 'assign_string',
+                          'ai': 'assign_ilist', 'insr': 'insert_range', 'insi': 'insert_ilist'}[k]
     names = {'H': 'get_header', 'G': 'group_view', 'D': 'data_view', 'z': 'size_bytes', 'n': 'size', 'b': 'begin',
              'i': 'operator[]', '+': 'iterator.inc', '*': 'iterator.deref', 'dd': 'data', 'e': 'elem.read',
              'w': 'elem.write', 'r': 'resize', 'a': 'assign_range'}
@@ -805,12 +828,15 @@ def _bits(size):
     return int.from_bytes(bytes([0x5a] * size), 'little')
 
 
-def enum_chains(spec, max_entries=2, max_chains=400):
+def enum_chains(spec, max_entries=2, max_chains=400, extra_counts=(), only_data=False):
     """every accessor kind of the message whose image `spec` holds, each as its own chain"""
     out = []
+    seen = set()
 
     def add(steps):
-        if len(out) < max_chains:
+        key = tuple(tuple(st) for st in steps)
+        if len(out) < max_chains and key not in seen:
+            seen.add(key)
             out.append(list(steps))
 
     def leaves(prefix, lvs):
@@ -882,8 +908,16 @@ def enum_chains(spec, max_entries=2, max_chains=400):
             # counts: the stored one, the one that fits the image exactly, and one more (bounded: the driver
             # allocates the source range)
             fit = spec.L - (p[2] + d['lenSize'])
-            for cnt in sorted({c for c in (n, n + 1, fit, fit + 1) if 0 <= c <= min(mx, 4096)}):
+            for cnt in sorted({c for c in (n, n + 1, fit, fit + 1) + tuple(extra_counts) if 0 <= c <= min(mx, 4096)}):
                 add(dp + [('r', cnt)])
+                add(dp + [('a', cnt)])
+                add(dp + [('af', cnt)])
+                add(dp + [('an', cnt)])
+            # assign family with small sizes at and below the stored size (a stored prefix that already covers the
+            # new size must not switch the check off), every overload
+            for cnt in sorted({c for c in (0, 1, n - 1, n) + tuple(extra_counts) if 0 <= c <= min(mx, 8)}):
+                add(dp + [('ai', cnt)])
+                add(dp + [('as', cnt)])
                 add(dp + [('a', cnt)])
             # container operations at boundary positions
             if n <= 64:
@@ -893,8 +927,12 @@ def enum_chains(spec, max_entries=2, max_chains=400):
                 add(dp + [('ins', 0, 1)])
                 add(dp + [('er', n, n)])          # empty range at end()
                 add(dp + [('rs', n)])
+                add(dp + [('rv', n)])
+                add(dp + [('insr', n, 2)])
+                add(dp + [('insi', 0, 1)])
                 if n + 1 <= mx:
                     add(dp + [('rs', n + 1)])
+                    add(dp + [('rv', n + 1)])
                 if n > 0:
                     add(dp + [('fr',)])
                     add(dp + [('bk',)])
@@ -907,6 +945,9 @@ def enum_chains(spec, max_entries=2, max_chains=400):
     add([('H',)])
     leaves([('H',)], spec.m['hdrLeaves'])
     level([], spec.m['level'])
+    if only_data:
+        # state sweep images: only the operations of <data> members
+        out = [ch for ch in out if any(st[0] == 'D' for st in ch)]
     return out
 
 
